@@ -25,7 +25,7 @@ NOT_DECIDED = ["memory-mapped (float32 buffer) vs in-memory (float64) fits agree
                "directory listing order (covered only through sorted(glob) + sort_to_match)"]
 ASSUMPTIONS = ["one generic model / filter / aperture stands for every iteration", "np.argsort returns a permutation"]
 TRUSTED = ["python ast", "sedlint E4/E5"]
-MIN = {'EFF-6': 2, 'PERM-8': 10, 'CFG-5': 2, 'PERM-3': 4, 'CFG-6': 1, 'AGREE-3': 6, 'AXIS': 6}
+MIN = {'EFF-6': 2, 'PERM-8': 10, 'CFG-5': 2, 'PERM-3': 4, 'CFG-6': 1, 'AGREE-3': 10, 'AXIS': 60}
 TECHNIQUE = 'static analysis: AST value numbering of both convolution drivers and of sort_to_match; writer/reader agreement tables; ordering rules on recorded call sequences'
 
 VOCAB = {'sflux', 'serr', 'cubeval', 'cubeunc', 'R', 'sname', 'cnames', 'fcw', 'sap', 'cap', 'names', 'req', 'flux', 'err', 'pnames'}
@@ -165,13 +165,27 @@ def run(ctx):
     check_drivers(ctx)
     check_sort_to_match(ctx)
     check_shared_buffers(ctx)
-    fw, fr = repo.func('convolved_fluxes.convolved_fluxes', 'ConvolvedFluxes.write'), repo.func('convolved_fluxes.convolved_fluxes', 'ConvolvedFluxes.read')
-    fitsmodel.check_pair(ctx, 'AGREE-3', fw, fr, {k: k for k in ('central_wavelength', 'apertures', 'model_names', 'flux', 'error')}, where, [('central_wavelength', 'FILTWAV')])
-    sed_axes, _ = declared_axes(repo, repo.cls('sed.sed', 'SED'))
-    cube_axes, _ = declared_axes(repo, repo.cls('sed.cube', 'SEDCube'))
-    sr, cr = repo.func('sed.sed', 'SED.read'), repo.func('sed.cube', 'BaseCube.read')
-    c12.check_reversal(ctx, 'AXIS', ctx.fn(sr), fitsmodel.Reader(sr).obj, sed_axes, ['wav', 'nu', 'flux', 'error'])
-    c12.check_reversal(ctx, 'AXIS', ctx.fn(cr), fitsmodel.Reader(cr).obj, cube_axes, ['wav', 'val', 'unc'])
+    # files: written and read back unchanged, spectral arrays reversed together (decided by interpreting writer and reader, roundtrip.py);
+    # the syntactic tables are a fall-back that may only say "undecided"
+    from .. import roundtrip
+    d_conv = roundtrip.check_conv(ctx, 'AGREE-3')
+    d_sed = roundtrip.check_sed(ctx, 'AXIS', 'AXIS')
+    d_cube = roundtrip.check_cube(ctx, 'AXIS', 'AXIS')
+    if not (d_conv and d_sed and d_cube):
+        sus = roundtrip.SuspectCtx(ctx, 'the round trip was not decided by interpretation and the syntactic rule, which knows one spelling only, reports')
+        try:
+            if not d_conv:
+                fw, fr = repo.func('convolved_fluxes.convolved_fluxes', 'ConvolvedFluxes.write'), repo.func('convolved_fluxes.convolved_fluxes', 'ConvolvedFluxes.read')
+                fitsmodel.check_pair(sus, 'AGREE-3', fw, fr, {k: k for k in ('central_wavelength', 'apertures', 'model_names', 'flux', 'error')}, where, [('central_wavelength', 'FILTWAV')])
+            sed_axes, _ = declared_axes(repo, repo.cls('sed.sed', 'SED'))
+            cube_axes, _ = declared_axes(repo, repo.cls('sed.cube', 'SEDCube'))
+            sr, cr = repo.func('sed.sed', 'SED.read'), repo.func('sed.cube', 'BaseCube.read')
+            if not d_sed:
+                c12.check_reversal(sus, 'AXIS', ctx.fn(sr), fitsmodel.Reader(sr).obj, sed_axes, ['wav', 'nu', 'flux', 'error'])
+            if not d_cube:
+                c12.check_reversal(sus, 'AXIS', ctx.fn(cr), fitsmodel.Reader(cr).obj, cube_axes, ['wav', 'val', 'unc'])
+        except AnalysisError as e:
+            ctx.undecided('AXIS', 'syntactic fall-back', 'sedfitter/sed', 'structure not recognised: %s' % e)
     # names threaded into Models
     for version in (1, 2):
         fi, I, h, m = readers.run_reader(repo, version)
